@@ -83,6 +83,31 @@ int run(const Args& A) {
                         STATS.hit(std::string("err.") + errName(e));
                     }
                 }
+                // cross product of two sets into a relation forest (sets only)
+                if (!rel && round == 0 && D.card(true) <= 1300) {
+                    Kind kx; kx.rel = true;
+                    std::vector<reduction_rule> rr = {reduction_rule::FULLY_REDUCED, reduction_rule::QUASI_REDUCED,
+                                                      reduction_rule::IDENTITY_REDUCED};
+                    kx.rr = r.pick(rr);
+                    Pol px = r.chance(1, 3) ? Pol::random(r) : Pol();
+                    forest* X = makeForest(D.d, kx, px);
+                    emitForest("Fx", X, kx, px);
+                    {
+                        dd_edge res(X);
+                        try {
+                            apply(CROSS, a, b, res);
+                            emit("op RX CROSS A B");
+                            emitTable("RX", "Fx", D, res);
+                            STATS.hit("op.CROSS");
+                            emitAudit("Fx", X, kx);
+                            emitRoot("RX", "Fx", res, kx);
+                        } catch (error& e) {
+                            emit("err RX CROSS A B %s", errName(e));
+                            STATS.hit(std::string("err.CROSS.") + errName(e));
+                        }
+                    }
+                    forest::destroy(X);
+                }
                 // result forest must stay canonical with exact counts
                 if (round == rounds - 1) {
                     emitAudit("Fc", fs[2].F, fs[2].k);
